@@ -12,9 +12,10 @@ namespace Rigo.TM
 def VView (s : St) : List Delegatee × List Delegatee × Params × Option BlockCtx :=
   (s.allDelegs, s.lastVals, s.active, s.blk)
 
-theorem foldl_res_inv {α : Type} (P : St → Prop) (F : St → α → Res St)
-    (hF : ∀ s x s', F s x = .ok s' → P s → P s') (l : List α) (acc : Res St) (s' : St)
-    (h : l.foldl (fun acc x => match acc with | .panic e => .panic e | .ok s => F s x) acc = .ok s') :
+theorem foldl_res_inv {α : Type} (P : St → Prop) (G : Res St → α → Res St)
+    (hG0 : ∀ e x, G (.panic e) x = .panic e)
+    (hG : ∀ s x s', G (.ok s) x = .ok s' → P s → P s') (l : List α) (acc : Res St) (s' : St)
+    (h : l.foldl G acc = .ok s') :
     ∃ s0, acc = .ok s0 ∧ (P s0 → P s') := by
   induction l generalizing acc with
   | nil => exact ⟨s', h, id⟩
@@ -22,29 +23,16 @@ theorem foldl_res_inv {α : Type} (P : St → Prop) (F : St → α → Res St)
     rw [List.foldl_cons] at h
     obtain ⟨s1, h1, himp⟩ := ih _ h
     cases acc with
-    | panic e => simp at h1
-    | ok s0 =>
-      simp only at h1
-      exact ⟨s0, rfl, fun hp => himp (hF s0 x s1 h1 hp)⟩
+    | panic e => rw [hG0] at h1; cases h1
+    | ok s0 => exact ⟨s0, rfl, fun hp => himp (hG s0 x s1 h1 hp)⟩
 
 theorem freezeProposals_view (s : St) (height : Int) (s' : St) (h : freezeProposals s height = .ok s') :
     VView s' = VView s := by
   unfold freezeProposals at h
-  obtain ⟨s0, h0, himp⟩ := foldl_res_inv (fun x => VView x = VView s)
-    (fun (s : St) (kp : String × Proposal) =>
-      if kp.2.end_ < height then
-        if (s.props.get true kp.1).isNone then .panic "EndBlock: DelFinality of a proposal that is gone" else
-        let s1 := { s with props := s.props.del true kp.1 }
-        let sorted := sortOptions kp.2.options
-        match sorted with
-        | [] => .panic "index out of range: proposal without options"
-        | top :: _ =>
-          if top.votes ≥ kp.2.majority then
-            .ok { s1 with fprops := s1.fprops.set true kp.1 { kp.2 with options := sorted, major := some top } }
-          else .ok s1
-      else .ok s)
+  obtain ⟨s0, h0, himp⟩ := foldl_res_inv (fun x => VView x = VView s) _ (fun _ _ => rfl)
     (by
       intro s x s' hF hP
+      obtain ⟨k, p⟩ := x
       simp only at hF
       split at hF
       · split at hF
@@ -53,31 +41,17 @@ theorem freezeProposals_view (s : St) (height : Int) (s' : St) (h : freezePropos
           · cases hF
           · split at hF <;> (cases hF; exact hP)
       · cases hF; exact hP)
-    s.props.committed.toList (.ok s) s' h
+    _ _ s' h
   cases h0
   exact himp rfl
 
 theorem applyProposals_view (s : St) (height : Int) (s' : St) (h : applyProposals s height = .ok s') :
     VView s' = VView s := by
   unfold applyProposals at h
-  obtain ⟨s0, h0, himp⟩ := foldl_res_inv (fun x => VView x = VView s)
-    (fun (s : St) (kp : String × Proposal) =>
-      if kp.2.applying ≤ height then
-        if (s.fprops.get true kp.1).isNone then .panic "EndBlock: DelFinality of a frozen proposal that is gone" else
-        let s1 := { s with fprops := s.fprops.del true kp.1 }
-        match kp.2.major with
-        | none => .ok s1
-        | some m =>
-          if kp.2.optType = PROPOSAL_GOVPARAMS then
-            match m.parsedA with
-            | none => .panic "EndBlock: option does not unmarshal at apply time"
-            | some o =>
-              let np := mergeParams s1.active o
-              .ok { s1 with params := s1.params.set true zeroHash np, pending := some np }
-          else .ok s1
-      else .ok s)
+  obtain ⟨s0, h0, himp⟩ := foldl_res_inv (fun x => VView x = VView s) _ (fun _ _ => rfl)
     (by
       intro s x s' hF hP
+      obtain ⟨k, p⟩ := x
       simp only at hF
       split at hF
       · split at hF
@@ -90,46 +64,170 @@ theorem applyProposals_view (s : St) (height : Int) (s' : St) (h : applyProposal
               · cases hF; exact hP
             · cases hF; exact hP
       · cases hF; exact hP)
-    s.fprops.committed.toList (.ok s) s' h
+    _ _ s' h
   cases h0
   exact himp rfl
 
 theorem feeHandover_view (s : St) (b : BlockCtx) (s' : St) (h : feeHandover s b = .ok s') : VView s' = VView s := by
   unfold feeHandover at h
   split at h
-  · split at h
+  · simp only at h
+    split at h
     · cases h
     · cases h; rfl
   · cases h; rfl
 
+theorem reward_view (s : St) (to : Hex) (amt : Nat) (s1 : St) (hr : s.reward true to amt = some s1) : VView s1 = VView s := by
+  unfold St.reward at hr
+  split at hr
+  · cases hr
+  · split at hr
+    · cases hr
+    · cases hr; rfl
+
 theorem unfreeze_view (s : St) (height : Int) (s' : St) (h : unfreeze s height = .ok s') : VView s' = VView s := by
   unfold unfreeze at h
-  obtain ⟨s0, h0, himp⟩ := foldl_res_inv (fun x => VView x = VView s)
-    (fun (s : St) (kst : String × Stake) =>
-      if kst.2.refund ≤ height then
-        match s.reward true kst.2.owner (powerToAmount kst.2.power) with
-        | none => .panic "EndBlock: refund to a missing account"
-        | some s1 =>
-          .ok { s1 with frozen := s1.frozen.del true (ledgerKey kst.2.hash),
-                        ghost := { s1.ghost with refunds := s1.ghost.refunds ++ [(kst.2.hash, kst.2.owner, kst.2.power, height)] } }
-      else .ok s)
+  obtain ⟨s0, h0, himp⟩ := foldl_res_inv (fun x => VView x = VView s) _ (fun _ _ => rfl)
     (by
       intro s x s' hF hP
+      obtain ⟨k, st⟩ := x
       simp only at hF
       split at hF
       · split at hF
         · cases hF
         · rename_i s1 hr
           cases hF
-          unfold St.reward at hr
-          split at hr
-          · cases hr
-          · split at hr
-            · cases hr
-            · cases hr; exact hP
+          have := reward_view _ _ _ _ hr
+          rw [← hP, ← this]; rfl
       · cases hF; exact hP)
-    s.frozen.committed.toList (.ok s) s' h
+    _ _ s' h
   cases h0
   exact himp rfl
+
+/-- the new validator list `updateValidators` selects in state `s` -/
+def topN (s : St) : List Delegatee := s.allDelegs.take s.active.maxValidatorCnt.toNat
+
+/-- **what `endBlock` does to the validator lists**: either it stops early (a panic outcome or a call
+    outside a block: no updates, lists unchanged) or it sets `lastVals` to the power-sorted first
+    `maxValidatorCnt` eligible delegatees and emits the merge-diff of the address-sorted old and new lists. -/
+theorem endBlock_valset (s : St) :
+    ((endBlock s).2.valUpdates = [] ∧ (endBlock s).1.lastVals = s.lastVals ∧ (endBlock s).1.allDelegs = s.allDelegs ∧
+        (endBlock s).1.active = s.active) ∨
+    (0 ≤ s.active.maxValidatorCnt ∧ (endBlock s).2.panic = "" ∧
+      (endBlock s).1.lastVals = sortByPower (topN s) ∧
+      (endBlock s).2.valUpdates = validatorUpdates (sortByAddr s.lastVals) (sortByAddr (topN s)) ∧
+      (endBlock s).1.allDelegs = s.allDelegs ∧ (endBlock s).1.active = s.active) := by
+  unfold endBlock
+  split
+  · left; exact ⟨rfl, rfl, rfl, rfl⟩
+  · rename_i b _
+    split
+    · left; exact ⟨rfl, rfl, rfl, rfl⟩
+    · rename_i s1 h1
+      have v1 := freezeProposals_view _ _ _ h1
+      split
+      · left; simp only [VView, Prod.mk.injEq] at v1; exact ⟨rfl, v1.2.1, v1.1, v1.2.2.1⟩
+      · rename_i s2 h2
+        have v2 := (applyProposals_view _ _ _ h2).trans v1
+        split
+        · left; simp only [VView, Prod.mk.injEq] at v2; exact ⟨rfl, v2.2.1, v2.1, v2.2.2.1⟩
+        · rename_i s3 h3
+          have v3 := (feeHandover_view _ _ _ h3).trans v2
+          split
+          · left; simp only [VView, Prod.mk.injEq] at v3; exact ⟨rfl, v3.2.1, v3.1, v3.2.2.1⟩
+          · rename_i s4 h4
+            have v4 := (unfreeze_view _ _ _ h4).trans v3
+            simp only [VView, Prod.mk.injEq] at v4
+            obtain ⟨va, vl, vact, _⟩ := v4
+            split
+            · left; exact ⟨rfl, vl, va, vact⟩
+            · rename_i s5 ups h5
+              right
+              unfold updateValidators selectValidators at h5
+              by_cases hm : s4.active.maxValidatorCnt < 0
+              · simp [hm] at h5
+              · simp only [hm, if_false] at h5
+                cases h5
+                unfold topN
+                rw [← va, ← vl, ← vact]
+                exact ⟨by omega, rfl, rfl, rfl, rfl, rfl⟩
+
+/-- two lists with the same members and distinct keys stand for the same set -/
+theorem asSet_perm {l l' : List Delegatee} (p : l.Perm l') (hd : l.Pairwise (fun a b => a.pub ≠ b.pub)) :
+    asSet l = asSet l' := by
+  have hd' : l'.Pairwise (fun a b => a.pub ≠ b.pub) := (p.pairwise_iff (fun hab e => hab e.symm)).mp hd
+  apply ExtTreeMap.ext_getElem?
+  intro k
+  by_cases hk : ∃ d ∈ l, d.pub = k
+  · obtain ⟨d, hdl, rfl⟩ := hk
+    rw [getElem?_asSet_of_mem l hd d hdl, getElem?_asSet_of_mem l' hd' d (p.mem_iff.mp hdl)]
+  · have hn : ∀ d ∈ l, d.pub ≠ k := fun d hdl e => hk ⟨d, hdl, e⟩
+    have hn' : ∀ d ∈ l', d.pub ≠ k := fun d hdl => hn d (p.mem_iff.mpr hdl)
+    rw [getElem?_asSet_of_not_mem l k hn, getElem?_asSet_of_not_mem l' k hn']
+
+/-- distinct addresses give distinct keys -/
+theorem pub_distinct_of_addr {f : Hex → Hex} (finj : Injective f) {ds : List Delegatee} (hd : AddrDistinct ds)
+    (hp : PubOfAddr f ds) : ds.Pairwise (fun a b => a.pub ≠ b.pub) := by
+  unfold AddrDistinct at hd
+  induction hd with
+  | nil => exact List.Pairwise.nil
+  | cons hr _ ih =>
+    refine List.Pairwise.cons ?_ (ih hp.tail)
+    intro x hx e
+    rw [hp _ (by simp), hp x (List.mem_cons_of_mem _ hx)] at e
+    exact hr x hx (finj _ _ e)
+
+theorem PubOfAddr.perm {f : Hex → Hex} {l l' : List Delegatee} (h : PubOfAddr f l) (p : l'.Perm l) : PubOfAddr f l' :=
+  fun d hd => h d (p.mem_iff.mp hd)
+
+/-- hypotheses on the two lists `updateValidators` reads -/
+structure ValsetOK (f : Hex → Hex) (s : St) : Prop where
+  allDistinct : AddrDistinct s.allDelegs
+  lastDistinct : AddrDistinct s.lastVals
+  allPub : PubOfAddr f s.allDelegs
+  lastPub : PubOfAddr f s.lastVals
+  allPos : ∀ d ∈ s.allDelegs, 0 < d.total
+
+theorem topN_sublist (s : St) : (topN s).Sublist s.allDelegs := List.take_sublist _ _
+
+/-- **valset_mirror_step**: one `endBlock` transforms the engine's set standing for the old `lastVals`
+    into the set standing for the new `lastVals`; the new `lastVals` is the power-ranked, truncated list of
+    eligible delegatees, each with power = total bonded power; and the engine accepts the update list
+    provided the new list is not empty. -/
+theorem valset_mirror_step {f : Hex → Hex} (finj : Injective f) (s : St) (ok : ValsetOK f s) :
+    applyUpdates (asSet s.lastVals) (endBlock s).2.valUpdates = asSet (endBlock s).1.lastVals ∧
+    ((endBlock s).1.lastVals = sortByPower (topN s) ∨
+      ((endBlock s).1.lastVals = s.lastVals ∧ (endBlock s).2.valUpdates = [])) ∧
+    ((endBlock s).2.valUpdates ≠ [] → topN s ≠ [] → tmAccepts (asSet s.lastVals) (endBlock s).2.valUpdates) ∧
+    ValsetOK f (endBlock s).1 := by
+  have hsub := topN_sublist s
+  have hnd : AddrDistinct (topN s) := ok.allDistinct.sublist hsub
+  have hnp : PubOfAddr f (topN s) := fun d hd => ok.allPub d (hsub.subset hd)
+  have hpos : ∀ n ∈ sortByAddr (topN s), 0 < n.total := fun n hn =>
+    ok.allPos n (hsub.subset ((sortByAddr_perm _).mem_iff.mp hn))
+  have hso := sortByAddr_sorted ok.lastDistinct
+  have hsn := sortByAddr_sorted hnd
+  have hpo := ok.lastPub.perm (sortByAddr_perm s.lastVals)
+  have hpn := hnp.perm (sortByAddr_perm (topN s))
+  have hmerge := mergeDiff_correct finj _ _ hso hsn hpo hpn (fun n hn => Int.ne_of_gt (hpos n hn))
+  have e1 : asSet (sortByAddr s.lastVals) = asSet s.lastVals :=
+    asSet_perm (sortByAddr_perm _) (pub_distinct finj hso hpo)
+  have e2 : asSet (sortByAddr (topN s)) = asSet (sortByPower (topN s)) :=
+    asSet_perm ((sortByAddr_perm _).trans (sortByPower_perm _).symm) (pub_distinct finj hsn hpn)
+  rcases endBlock_valset s with ⟨h1, h2, h3, h4⟩ | ⟨h0, hp, h1, h2, h3, h4⟩
+  · refine ⟨by rw [h1, h2]; rfl, Or.inr ⟨h2, h1⟩, fun h => absurd h1 h, ?_⟩
+    exact ⟨h3 ▸ ok.allDistinct, h2 ▸ ok.lastDistinct, h3 ▸ ok.allPub, h2 ▸ ok.lastPub, h3 ▸ ok.allPos⟩
+  · refine ⟨?_, Or.inl h1, ?_, ?_⟩
+    · rw [h2, h1, ← e1, hmerge, e2]
+    · intro _ hne
+      rw [h2, ← e1]
+      apply updates_accepted finj _ _ hso hsn hpo hpn hpos
+      intro e
+      have := (sortByAddr_perm (topN s)).length_eq
+      rw [e] at this
+      exact hne (List.length_eq_zero_iff.mp this.symm)
+    · refine ⟨h3 ▸ ok.allDistinct, ?_, h3 ▸ ok.allPub, ?_, h3 ▸ ok.allPos⟩
+      · rw [h1]; exact hnd.perm (sortByPower_perm _)
+      · rw [h1]; exact hnp.perm (sortByPower_perm _)
 
 end Rigo.TM
